@@ -61,6 +61,7 @@ type c09Gen struct {
 	bodyOf map[int]int
 	desc   []string
 	sleeps bool
+	needStarter bool
 	allowSleep bool
 }
 
@@ -91,7 +92,21 @@ func (g *c09Gen) actor(depth int) int {
 	p("func actor%d() {\n\thost.Tick(%d)\n", id, id)
 	// ping-pong needs a partner goroutine of its own
 	for _, k := range kids {
-		p("\tgo actor%d()\n", k)
+		// every form of go statement the interpreter implements differently
+		switch g.tape.Choose(5) {
+		case 0:
+			p("\tgo actor%d()\n", k)
+		case 1:
+			p("\tgo func() { actor%d() }()\n", k)
+		case 2:
+			g.needStarter = true
+			p("\tgo (&starter{}).run(actor%d)\n", k)
+		case 3:
+			g.needStarter = true
+			p("\tgo runFn(actor%d, %d)\n", k, k)
+		case 4:
+			p("\tfa%d := actor%d\n\tgo fa%d()\n", k, k, k)
+		}
 	}
 	switch body {
 	case bLoopTick:
@@ -205,6 +220,9 @@ func GenC09Imp(tape *Tape, allowSleep, withImport bool) *C09Prog {
 	}
 	if initKind&2 != 0 {
 		src.WriteString("func init() {\n\tfor i := 0; i < 3; i++ {\n\t\thost.Tick(701)\n\t}\n}\n\n")
+	}
+	if g.needStarter {
+		src.WriteString("type starter struct{ n int }\n\nfunc (s *starter) run(f func()) {\n\ts.n++\n\tf()\n}\n\nfunc runFn(f func(), tag int) {\n\tif tag >= 0 {\n\t\tf()\n\t}\n}\n\n")
 	}
 	src.WriteString(g.decl.String())
 	if withImport {
